@@ -467,3 +467,29 @@ def field_base(e):
     """The expression a field is projected from (peeled), else None."""
     e = strip(e)
     return e[1] if e[0] == "field" else None
+
+
+IMMEDIATE_COMBINATORS = (
+    "core::bool::<impl bool>::then", "core::option::Option::<T>::map", "core::option::Option::<T>::and_then", "core::option::Option::<T>::unwrap_or_else",
+    "core::option::Option::<T>::map_or_else", "core::option::Option::<T>::or_else", "core::option::Option::<T>::ok_or_else", "core::option::Option::<T>::get_or_insert_with",
+    "core::result::Result::<T, E>::map", "core::result::Result::<T, E>::and_then", "core::result::Result::<T, E>::unwrap_or_else", "core::result::Result::<T, E>::or_else",
+)
+
+
+def effective_site(facts, call):
+    """(body, bb) where the event `call` happens from the point of view of the surrounding function: a call located in a plain
+    closure that is handed directly to a std combinator which invokes it at once (`flag.then(|| ..)`, `opt.map(|x| ..)`) happens
+    at that combinator's call site in the parent body."""
+    b = call.body
+    if b.kind != "Closure" or b.is_coroutine:
+        return b, call.bb
+    for pb in facts.all_bodies():
+        if not b.def_.startswith(pb.def_ + "::"):
+            continue
+        for c in pb.calls():
+            if c.bb in pb.live_blocks() and c.fn in IMMEDIATE_COMBINATORS:
+                for a in c.arg_exprs():
+                    x = strip(a)
+                    if x[0] == "agg" and x[1].get("agg") == "closure" and x[1].get("def") == b.def_:
+                        return pb, c.bb
+    return b, call.bb
